@@ -151,6 +151,8 @@ def run_one(d, prog, seed, inject_pause=False):
         steps += 1
         on_event(ev, o)
     v = d.view()
+    for e in d.swallowed:
+        fails.append({'property': 'C01', 'signature': 'lost-post-commit-operation:%s' % e['type'], 'what': e['msg'][:150]})
     for e in d.entry_errors:
         if e['event'].startswith('job'):
             fails.append({'property': 'C01', 'signature': 'internal-error-in-job:%s' % e['type'], 'what': e['msg'][:150]})
